@@ -106,6 +106,9 @@ pub fn history_strategy() -> impl Strategy<Value = History> {
         let mut sv: Vec<(u32, BoxedStrategy<Step>)> = vec![
             (8, (1u8..=200, 0u8..30, any::<bool>(), plan_strategy(class_c)).prop_map(|(port, len, confirmed, rx)| Step::Send { port, len, confirmed, rx }).boxed()),
             (1, (1u16..4).prop_map(Step::Silence).boxed()),
+            // long runs without any downlink: the ADR bookkeeping (64, 96, 128, ... unanswered uplinks)
+            // shares the code path that advances the counter
+            (1, prop_oneof![60u16..70, 94u16..100, 126u16..132, 100u16..300].prop_map(Step::Silence).boxed()),
         ];
         if class_c {
             sv.push((2, proptest::collection::vec(recipe_strategy(), 0..3).prop_map(Step::RxcListen).boxed()));
@@ -212,4 +215,8 @@ pub fn run(ctx: &mut Ctx) {
         }
     });
     let _ = json!(null);
+    // ---- cross-generator stage (see props/cross.rs)
+    ctx.rule.push_str(super::cross::CROSS_RULE);
+    let cross_cases = ctx.tier.pick(super::cross::QUICK_PER_GEN, super::cross::THOROUGH_PER_GEN);
+    super::cross::stage(ctx, "C06", cross_cases);
 }
